@@ -344,8 +344,7 @@ func c10Wiring(c *Ctx) {
 			}
 		}
 		c.R.Checkf(rule, "bitmap-length-checked", c.pos(f.Pos()), ok, "a cache entry whose bitmap length differs from the kernel struct's is rejected with an error")
-		as16 := strings.Contains(core.FullStr(f.Body), "common.Ipv6ByteSliceToUint32Array(ip6[:])") && strings.Contains(core.FullStr(f.Body), ".As16()")
-		c.R.Checkf(rule, "key-is-mapped-16-byte-form", c.pos(f.Pos()), as16, "table keys are the 16-byte (IPv4-mapped) address as four native-order words, as the kernel copies them")
+		keyFromAs16(c, rule)
 	}
 	if f := c.fn(rule, "control", "extractIPsFromDnsCache"); f != nil {
 		c.R.Checkf(rule, "unspecified-skipped", c.pos(f.Pos()), strings.Contains(core.FullStr(f.Body), "IsUnspecified()"), "0.0.0.0 / :: answers are never installed")
